@@ -1009,3 +1009,10 @@ impl AxelarGateway {
 
     /// Initialize the gateway
 ''', equiv=True)
+
+# ---------------- defects in NEW balance-writing entries (generic per-write obligations of C12.R3) ----------------
+M('C12', 'ft-transfer_batch-negative-amount', TOK, "            Self::validate_amount(env, amount);\n            Self::spend_balance(env, from.clone(), amount);", "            Self::spend_balance(env, from.clone(), amount);", 'C12.R3', base='features/token-f2')
+M('C12', 'ft-transfer_batch-no-auth', TOK, "        from.require_auth();\n\n        for (to, amount) in transfers.iter() {", "        for (to, amount) in transfers.iter() {", 'C12.R3', base='features/token-f2')
+M('C12', 'ft-transfer_batch-credit-more', TOK, "            Self::receive_balance(env, to.clone(), amount);\n\n            TokenUtils::new(env)", "            Self::receive_balance(env, to.clone(), amount + 1);\n\n            TokenUtils::new(env)", 'C12.R3', base='features/token-f2')
+M('C12', 'ft-transfer_batch-credit-without-debit', TOK, "            Self::spend_balance(env, from.clone(), amount);\n            Self::receive_balance(env, to.clone(), amount);\n\n            TokenUtils::new(env)", "            Self::receive_balance(env, to.clone(), amount);\n\n            TokenUtils::new(env)", 'C12.R3', base='features/token-f2')
+M('C07', 'ft-transfer_batch-no-auth-c07', TOK, "        from.require_auth();\n\n        for (to, amount) in transfers.iter() {", "        for (to, amount) in transfers.iter() {", 'C07', base='features/token-f2')
